@@ -66,6 +66,7 @@ def _seq_ops():
                 th.append(','.join(map(str, x)) + ',6,2')
     return q, th
 SEQ_QUICK, SEQ_THOROUGH = _seq_ops()
+OW_QUICK = ['40,1,41,1,2', '1,40,6,6,41,6,2', '1,1,2,8,2,1,3', '40,41,1,8,1,1,2', '1,40,41,6,6,1', '1,2,1,3,8,3', '40,1,1,41,6,1', '1,8,40,1,41,6']
 JOIN_QUICK = ['1,2,6', '1,1,2,6,2,6', '2,2,1,6,1,6', '1,2,6,7,1,2,7', '1,1,2,2,6,7', '2,1,6,1,2,6,7', '1,2,1,2,6,7,7', '2,2,2,1,6,1,6,1,6', '1,1,1,1,1,2,6,2,6', '1,2,7,7,2,1,6']
 LIM_QUICK = [(1, '1,1,21,1'), (2, '1,1,1,22,1,1'), (1, '51,1,1'), (2, '1,52,1,1'), (2, '53,1,1,1'), (1, '1,23,1,1'), (3, '1,1,1,1,23,1,1,1'), (1, '20,1,1'),
              (1, '4,3,3,21,3'), (2, '4,3,3,3,22,3'), (2, '1,4,22,3,1'), (1, '4,1,3,21,3'), (2, '4,3,1,3,21')]
@@ -80,6 +81,11 @@ UNITS = {
   'seqnode': dict(wrapper='w_bufnode.cpp', mode='seq', cxxflags=['-DNODEKIND=3'], looporder=True, cut=['prioritize_task'], devirt=True, prune=True, inline_threshold=300, m1ptr=True),
   'joinq': dict(wrapper='w_join.cpp', mode='seq', cxxflags=['-DJOINKIND=0'], looporder=True, cut=['prioritize_task'], prune=True, inline_threshold=300, m1ptr=True),
   'joinr': dict(wrapper='w_join.cpp', mode='seq', cxxflags=['-DJOINKIND=1'], looporder=True, cut=['prioritize_task'], prune=True, inline_threshold=300, m1ptr=True),
+  'overwrite': dict(wrapper='w_overwrite.cpp', mode='seq', cxxflags=['-DWO=0'], looporder=True, cut=['prioritize_task'], prune=True, inline_threshold=300, m1ptr=True),
+  'writeonce': dict(wrapper='w_overwrite.cpp', mode='seq', cxxflags=['-DWO=1'], looporder=True, cut=['prioritize_task'], prune=True, inline_threshold=300, m1ptr=True),
+  'route_broadcast': dict(wrapper='w_route.cpp', mode='seq', cxxflags=['-DROUTE=0'], looporder=True, cut=['prioritize_task'], prune=True, inline_threshold=300, m1ptr=True),
+  'route_split': dict(wrapper='w_route.cpp', mode='seq', cxxflags=['-DROUTE=1'], looporder=True, cut=['prioritize_task'], prune=True, inline_threshold=300, m1ptr=True),
+  'route_indexer': dict(wrapper='w_route.cpp', mode='seq', cxxflags=['-DROUTE=2'], looporder=True, cut=['prioritize_task'], prune=True, inline_threshold=300, m1ptr=True),
   'queuenode': dict(wrapper='w_bufnode.cpp', mode='seq', cxxflags=['-DNODEKIND=1'], looporder=True, cut=['prioritize_task'], devirt=True, prune=True, inline_threshold=300, m1ptr=True),
   'itembuf': dict(wrapper='w_itembuf.cpp', mode='seq', cxxflags=[], selftest=True, looporder=True),
 }
@@ -87,40 +93,40 @@ FS = ['--max-field-sensitivity-array-size', '600', '--object-bits', '12', '--no-
 HARNESSES = [
   dict(name='itembuf', unit='itembuf', harness='h_itembuf.c', cbmc=['--unwind', '600'] + FS,
        scenarios_quick=itembuf_scenarios([0], 3, ['4294967295'], 14) + itembuf_scenarios([3], 3, ['2'], 14),
-       scenarios_thorough=itembuf_scenarios([3, 4], 5, ['0', '1099511627779'], 12) + itembuf_scenarios([0, 1, 7, 8], 4, ['5', '4294967294'], 12),
+       scenarios_thorough=itembuf_scenarios([0, 3, 4, 7], 4, ['5', '4294967294'], 12) + itembuf_scenarios([3], 5, ['1099511627779'], 14),
        desc='reservable_item_buffer<int>: every caller-contract-respecting sequence of LEN ops over {push_back, pop_front, pop_back, reserve_front, release_front, '
             'consume_front, grow_my_array(size+1), grow_my_array(2cap+1)} after PRE pushes from ring origin(s) ORGS; values symbolic; after every step contents/order/'
             'size/reservation/slot states equal an abstract FIFO; drain returns everything once in order',
-       bounds={'ops per sequence': 'quick 3, thorough 4-5 (all sequences enumerated; concrete control)', 'prefill': 'quick 0,3; thorough 0,1,3,4,7,8',
+       bounds={'ops per sequence': 'quick 3, thorough 4 (prefill 0,3,4,7) and 5 (prefill 3): all sequences enumerated; concrete control', 'prefill': 'quick 0,3; thorough 0,3,4,7',
                'ring origin': 'concrete per scenario (phases 0,1,2,3,5 and values around 2^32 / 2^40)', 'capacity reached': '<= 32', 'item values': 'symbolic 32-bit'},
        timeout=300),
   dict(name='queue_node', unit='queuenode', harness='h_bufnode.c', cbmc=['--unwind', '40'] + FS, defines={'KIND': 1},
        scenarios_quick=bufnode_pick(BUF_QUICK, 1, ['0', '1', '2']) + bufnode_pick(BUF_QUICK[:4], 2, ['2', '5']),
-       scenarios_thorough=bufnode_scenarios(4, [1, 2], ['0', '1', '2', '5'], 2) + bufnode_scenarios(5, [1], ['0', '1', '2', '7'], 2),
+       scenarios_thorough=bufnode_scenarios(4, [1, 2], ['0', '1', '2', '5'], 2) + [dict(sc, LEN=5, FROM=6 * sc['FROM']) for sc in bufnode_scenarios(4, [1], ['0', '1', '2', '7'], 1)],
        desc='queue_node<int> through its public interface (try_put/try_get/try_reserve/try_release/try_consume, forwarder task, 1-2 successors with '
             'concrete accept patterns): every hand-out is the oldest buffered message, nothing handed out while reserved or twice, nothing lost, '
             'forwarder_busy/graph wait count consistent at quiescence, no stuck message',
-       bounds={'ops per sequence': 'quick: 10 hand-picked sequences of 4-7 ops; thorough: all sequences of 4 and 5 ops (first op try_put)', 'successors': '1-2',
+       bounds={'ops per sequence': 'quick: 10 hand-picked sequences of 4-7 ops; thorough: all sequences of 4 ops (first op try_put) and all of 5 ops starting with two puts', 'successors': '1-2',
                'accept patterns': 'concrete bit patterns per scenario', 'message values': 'symbolic, pairwise distinct'}, timeout=400),
   dict(name='priority_queue_node', unit='prionode', harness='h_bufnode.c', cbmc=['--unwind', '40'] + FS, defines={'KIND': 2},
        scenarios_quick=[sc for q, a in PRIO_QUICK for sc in bufnode_pick([q], 1, [a])],
-       scenarios_thorough=[sc for a in ('0', '1') for sc in bufnode_scenarios(4, [1], [a], 1)] +
-                          [dict(sc, FROM=6 * sc['FROM']) for a in ('0', '3') for sc in bufnode_scenarios(4, [1], [a], 1) if not sc.update(LEN=5)] +
-                          [sc for q, a in (('TTTTTGG', '0'), ('TTTTXGT', '1'), ('TTTTRTLGG', '0')) for sc in bufnode_pick([q], 1, [a])],
+       scenarios_thorough=bufnode_scenarios(4, [1], ['1'], 1) +
+                          [sc for q, a in (('TTTTTGG', '0'), ('TTTTXGT', '1'), ('TTTTRTLGG', '0'), ('TTTGTGTGG', '0'), ('TTXTTXGG', '2')) for sc in bufnode_pick([q], 1, [a])],
        desc='priority_queue_node<int> (std::less), same driver: every hand-out (get / reserve / accepted offer) is a maximum of the buffered values (heapify/reheap/'
             'prio_use_tail with symbolic values), reserve takes the maximum aside and release puts it back, nothing lost or duplicated',
-       bounds={'ops per sequence': 'quick: 5 hand-picked sequences of 5-6 ops; thorough: all sequences of 4 ops, all of 5 ops starting with two puts, 3 sequences with 5 items', 'heap size': 'quick <= 3, thorough <= 5',
+       bounds={'ops per sequence': 'quick: 5 hand-picked sequences of 5-6 ops; thorough: all sequences of 4 ops + 5 longer sequences with 4-5 items', 'heap size': 'quick <= 3, thorough <= 5',
                'successors': '1', 'accept patterns': 'concrete', 'message values': 'symbolic, pairwise distinct'}, timeout=600, thorough_override={'timeout': 2400}),
   dict(name='limiter_node', unit='limiter', harness='h_limiter.c', cbmc=['--unwind', '16'] + FS, defines={'memset': 'vp_memset'},
        scenarios_quick=[{'THR': t, 'OPS': o, 'ACCS': '15,0,5,10', 'AVAIL': 2} for t, o in LIM_QUICK],
-       scenarios_thorough=[{'THR': t, 'OPS': ','.join(q), 'ACCS': '15,0,5,10,3,12', 'AVAIL': 2} for t in (1, 2) for q in itertools.product(['1', '21', '22', '51', '52'], repeat=4)] +
-                          [{'THR': t, 'OPS': '4,' + ','.join(q), 'ACCS': '15,0,5,10,3,12', 'AVAIL': 2} for t in (1, 2) for q in itertools.product(['1', '3', '21', '22'], repeat=4)] +
+       scenarios_thorough=[{'THR': 1, 'OPS': ','.join(q), 'ACCS': '15,0,5,10', 'AVAIL': 2} for q in itertools.product(['1', '21', '22', '51', '52'], repeat=4)] +
+                          [{'THR': 2, 'OPS': ','.join(q), 'ACCS': '15,0,5,10', 'AVAIL': 2} for q in itertools.product(['1', '21', '51', '52'], repeat=4)] +
+                          [{'THR': 2, 'OPS': '4,' + ','.join(q), 'ACCS': '15,0,5,10', 'AVAIL': 2} for q in itertools.product(['1', '3', '21', '22'], repeat=4)] +
                           [{'THR': 3, 'OPS': o, 'ACCS': '15,0,5,10,3,12', 'AVAIL': 3} for t, o in LIM_QUICK],
        desc='limiter_node<int,int>: try_put / decrementer (delta 0..3, also re-entrant = arriving while the put is in flight) / pull from a predecessor by the '
             'forwarder task (reserve -> put -> consume|release, retry forwarder), successor with concrete accept patterns: forwarded - sum of decrements <= threshold '
             'at every forward, a put is refused unoffered only when the truncating count is at the threshold, rejected messages leave the counters unchanged, '
             'my_tries returns to 0, reservations are consumed or released exactly once',
-       bounds={'threshold': '1-3 concrete', 'ops per sequence': 'quick: 13 hand-picked sequences of 3-8 ops; thorough: all 4-op sequences over {put, dec 1, dec 2, put+dec 1, put+dec 2} and, '
+       bounds={'threshold': '1-3 concrete', 'ops per sequence': 'quick: 13 hand-picked sequences of 3-8 ops; thorough: all 4-op sequences over {put, dec 1, dec 2, put+dec 1, put+dec 2} (threshold 1; without dec 2 for threshold 2) and, threshold 2 '
                'with a predecessor, over {put, run task, dec 1, dec 2} (re-entrant decrement with a cached predecessor excluded: real self-deadlock, see NOTES)', 'accept patterns': '4-6 concrete 4-bit patterns per query', 'predecessor items': '2-3', 'message values': 'symbolic'}, timeout=400),
   dict(name='sequencer_node', unit='seqnode', harness='h_seqnode.c', cbmc=['--unwind', '40'] + FS,
        scenarios_quick=[{'OPS': o, 'ACCS': '15,0,5'} for o in SEQ_QUICK],
@@ -132,26 +138,96 @@ HARNESSES = [
                'put inserted at every position', 'successors': '1, concrete accept patterns (3 / 6 per query)', 'message values': 'symbolic, distinct'}, timeout=400),
   dict(name='join_queueing', unit='joinq', harness='h_join.c', cbmc=['--unwind', '40'] + FS, defines={'memset': 'vp_memset'},
        scenarios_quick=[{'OPS': o, 'ACCS': '15,0,5,2'} for o in JOIN_QUICK],
-       scenarios_thorough=[{'OPS': ','.join(q), 'ACCS': '15,0,5,10,2,6'} for n in (5, 6) for q in itertools.product('1267', repeat=n) if q[0] in '12' and '1' in q and '2' in q],
+       scenarios_thorough=[{'OPS': ','.join(q), 'ACCS': '15,0,5,10'} for q in itertools.product('1267', repeat=5) if q[0] in '12' and '1' in q and '2' in q],
        desc='join_node<tuple<int,int>, queueing>: puts on the two ports, forwarder task, try_get: i-th tuple handed out = (i-th message of port 0, i-th of port 1), only complete '
             'tuples, a rejected tuple stays and is offered again unchanged, nothing lost (final drain)',
-       bounds={'ops per sequence': 'quick: 10 hand-picked sequences of 3-9 ops; thorough: all sequences of 5-6 ops over {put port 0, put port 1, run task, try_get} using both ports',
-               'accept patterns': '4 / 6 concrete patterns per query', 'message values': 'symbolic'}, timeout=400),
+       bounds={'ops per sequence': 'quick: 10 hand-picked sequences of 3-9 ops; thorough: all sequences of 5 ops over {put port 0, put port 1, run task, try_get} using both ports',
+               'accept patterns': '4 concrete patterns per query', 'message values': 'symbolic'}, timeout=400),
   dict(name='join_reserving', unit='joinr', harness='h_joinres.c', cbmc=['--unwind', '40'] + FS, defines={'memset': 'vp_memset'},
        scenarios_quick=[{'OPS': o, 'ACCS': '15,0,5,2'} for o in JOIN_QUICK],
-       scenarios_thorough=[{'OPS': ','.join(q), 'ACCS': '15,0,5,10,2,6'} for n in (5, 6) for q in itertools.product('1267', repeat=n) if q[0] in '12' and '1' in q and '2' in q],
+       scenarios_thorough=[{'OPS': ','.join(q), 'ACCS': '15,0,5,10'} for q in itertools.product('1267', repeat=5) if q[0] in '12' and '1' in q and '2' in q],
        desc='join_node<tuple<int,int>, reserving> with two harness predecessors: a tuple is formed only while both sources are reserved and consists of the reserved '
             'messages; accepted -> both consumed once, rejected or partial -> all reservations released, none left pending; i-th tuple = i-th messages; try_get iff both available',
-       bounds={'ops per sequence': 'quick: 10 hand-picked sequences of 3-9 ops; thorough: all sequences of 5-6 ops over {message at source 0, at source 1, run task, try_get} using both sources',
-               'accept patterns': '4 / 6 concrete patterns per query', 'message values': 'symbolic'}, timeout=400),
+       bounds={'ops per sequence': 'quick: 10 hand-picked sequences of 3-9 ops; thorough: all sequences of 5 ops over {message at source 0, at source 1, run task, try_get} using both sources',
+               'accept patterns': '4 concrete patterns per query', 'message values': 'symbolic'}, timeout=400),
+  dict(name='overwrite_node', unit='overwrite', harness='h_overwrite.c', cbmc=['--unwind', '16'] + FS, defines={'memset': 'vp_memset', 'WO': 0},
+       scenarios_quick=[{'OPS': o, 'ACCS': '15,0,5,10,2'} for o in OW_QUICK],
+       scenarios_thorough=[{'OPS': ','.join(q), 'ACCS': '15,0,5,10,2,6,9'} for q in itertools.product(['1', '2', '40', '41', '6', '8'], repeat=4) if '1' in q and ('40' in q or '41' in q)],
+       desc='overwrite_node<int>: try_put / try_get / try_reserve / clear / late successor registration with the retry task, two successors with concrete accept patterns: '
+            'the node holds the latest value and returns exactly it; every taken put is offered once to each registered successor; a successor registered while a value is '
+            'held is offered it at once and again by the retry task until it accepts',
+       bounds={'ops per sequence': 'quick: 8 hand-picked sequences of 5-7 ops; thorough: all 4-op sequences over {put, get, register succ 0/1, run task, clear} containing a put and a registration',
+               'successors': '2', 'accept patterns': '5 / 7 concrete 4-bit patterns per query', 'values': 'symbolic'}, timeout=400),
+  dict(name='write_once_node', unit='writeonce', harness='h_overwrite.c', cbmc=['--unwind', '16'] + FS, defines={'memset': 'vp_memset', 'WO': 1},
+       scenarios_quick=[{'OPS': o, 'ACCS': '15,0,5,10,2'} for o in OW_QUICK],
+       scenarios_thorough=[{'OPS': ','.join(q), 'ACCS': '15,0,5,10,2,6,9'} for q in itertools.product(['1', '2', '40', '41', '6', '8'], repeat=4) if '1' in q and ('40' in q or '41' in q)],
+       desc='write_once_node<int>: try_put / try_get / try_reserve / clear / late successor registration with the retry task, two successors with concrete accept patterns: '
+            'the node holds the first (since the last clear) value and returns exactly it; every taken put is offered once to each registered successor; a successor registered while a value is '
+            'held is offered it at once and again by the retry task until it accepts; puts while a value is held are refused and forwarded to nobody',
+       bounds={'ops per sequence': 'quick: 8 hand-picked sequences of 5-7 ops; thorough: all 4-op sequences over {put, get, register succ 0/1, run task, clear} containing a put and a registration',
+               'successors': '2', 'accept patterns': '5 / 7 concrete 4-bit patterns per query', 'values': 'symbolic'}, timeout=400),
+  dict(name='broadcast_node', unit='route_broadcast', harness='h_route.c', cbmc=['--unwind', '16'] + FS, defines={'memset': 'vp_memset', 'ROUTE': 0, 'NPUT': 3},
+       scenarios=[{'ACC': a} for a in (63, 0, 21, 42)], thorough_override={'defines': {'memset': 'vp_memset', 'ROUTE': 0, 'NPUT': 4}},
+       desc='broadcast_node with two harness successors: every put is offered exactly once, unchanged, to every successor; try_put succeeds; no task is spawned',
+       bounds={'puts': 'quick 3, thorough 4', 'successors': '2', 'accept patterns': '4 concrete', 'values': 'symbolic'}, timeout=300),
+  dict(name='split_node', unit='route_split', harness='h_route.c', cbmc=['--unwind', '16'] + FS, defines={'memset': 'vp_memset', 'ROUTE': 1, 'NPUT': 3},
+       scenarios=[{'ACC': a} for a in (63, 0, 21, 42)], thorough_override={'defines': {'memset': 'vp_memset', 'ROUTE': 1, 'NPUT': 4}},
+       desc='split_node with two harness successors: tuple element i is offered exactly once to the successor of output port i and to nobody else; try_put succeeds; no task is spawned',
+       bounds={'puts': 'quick 3, thorough 4', 'successors': '2', 'accept patterns': '4 concrete', 'values': 'symbolic'}, timeout=300),
+  dict(name='indexer_node', unit='route_indexer', harness='h_route.c', cbmc=['--unwind', '16'] + FS, defines={'memset': 'vp_memset', 'ROUTE': 2, 'NPUT': 3},
+       scenarios=[{'ACC': a} for a in (63, 0, 21, 42)], thorough_override={'defines': {'memset': 'vp_memset', 'ROUTE': 2, 'NPUT': 4}},
+       desc='indexer_node with two harness successors: a message put on input port p (symbolic choice) reaches every successor exactly once as a tagged message with tag p and the same value; try_put succeeds; no task is spawned',
+       bounds={'puts': 'quick 3, thorough 4', 'successors': '2', 'accept patterns': '4 concrete', 'values': 'symbolic'}, timeout=300),
   dict(name='buffer_node', unit='bufnode', harness='h_bufnode.c', cbmc=['--unwind', '40'] + FS, defines={'KIND': 0},
        scenarios_quick=bufnode_pick(BUF_QUICK, 1, ['0', '1', '2']) + bufnode_pick(BUF_QUICK[:4], 2, ['2', '5']),
-       scenarios_thorough=bufnode_scenarios(4, [1, 2], ['0', '1', '2', '5'], 2) + bufnode_scenarios(5, [1], ['0', '1', '2', '7'], 2),
+       scenarios_thorough=bufnode_scenarios(4, [1, 2], ['0', '1', '2', '5'], 2) + [dict(sc, LEN=5, FROM=6 * sc['FROM']) for sc in bufnode_scenarios(4, [1], ['0', '1', '2', '7'], 1)],
        desc='buffer_node<int>, same driver: every hand-out is a buffered unreserved message (try_get never returns the reserved one), nothing twice, nothing '
             'lost after release/consume',
-       bounds={'ops per sequence': 'quick: 10 hand-picked sequences of 4-7 ops; thorough: all sequences of 4 and 5 ops (first op try_put)', 'successors': '1-2',
+       bounds={'ops per sequence': 'quick: 10 hand-picked sequences of 4-7 ops; thorough: all sequences of 4 ops (first op try_put) and all of 5 ops starting with two puts', 'successors': '1-2',
                'accept patterns': 'concrete bit patterns per scenario', 'message values': 'symbolic, pairwise distinct'}, timeout=400),
 ]
-OUTSIDE = []
-STUBS = []
-ASSUMPTIONS = []
+MANIFEST = dict(
+  level_text='Bounded symbolic execution (clang-14 IR -> tools/ir2c.py -> cbmc) of the real flow-graph node code, one node type per unit, single caller thread: '
+             'item_buffer / reservable_item_buffer ring, buffer_node, queue_node, priority_queue_node, sequencer_node, limiter_node, join_node (queueing and reserving, 2 ports), '
+             'overwrite_node, write_once_node, broadcast_node, split_node, indexer_node. Each node is driven through its public interface (plus the forwarder tasks it spawns, '
+             'collected by the r1::submit stub and run by the harness) by enumerated operation sequences with concrete successor accept/reject patterns; message values are symbolic '
+             '(priority_queue_node: symbolic priorities decide the heap paths). Oracles are abstract specifications (FIFO with front reservation, multiset, max-heap, sequence counter, '
+             'outstanding-count bound, per-port FIFOs / reservation protocol, held-value register, routing table) checked after every step and at quiescence.',
+  level_note='Operation sequences and accept patterns are enumerated concretely (quick: hand-picked; thorough: exhaustive up to 4-5 ops per node) because cbmc cannot bound the real loops '
+             'or dispatch on graph_task* values when they are symbolic; the solver quantifies over message values only (and over priorities / input-port choice where stated). '
+             'The aggregator is modelled as run-handler-inline (single caller); true concurrency (several threads at the ports, decrement racing a put on another thread), key_matching joins, '
+             'joins with more than 2 ports, node priorities, try_put_and_wait metainfo, reset/cancellation are outside. limiter_node with a decrement delivered synchronously on the '
+             'forwarding thread while a predecessor is cached is excluded (real self-deadlock, props/C15/repro_limiter_selfdeadlock.cpp). Trusted: clang-14 IR, tools/ir2c.py '
+             '(item_buffer unit validated per run by the selftest differential), cbmc.',
+)
+OUTSIDE = [
+  'several threads calling into one node at once (aggregator contention, two join ports fed concurrently, decrement racing a put from another thread): the aggregator is replaced by its uncontended behaviour',
+  'join_node with key_matching / tag_matching policy (hash buffers, key count table) and joins with more than 2 ports',
+  'limiter_node: a decrement delivered synchronously on the thread that is forwarding (lightweight successor feeding the decrementer) while the limiter holds a cached predecessor and count+tries < threshold: '
+  'the real code self-deadlocks on broadcast_cache\'s spin_rw_mutex (liveness defect, reproducer props/C15/repro_limiter_selfdeadlock.cpp); these scenarios are not generated',
+  'symbolic operation choice, symbolic accept/reject patterns, symbolic ring origin: enumerated concretely instead (cbmc symex cannot bound the real loops / dispatch on symbolic graph_task*)',
+  'item_buffer with non-trivially-copyable item types; capacities above 32; my_head/my_tail near 2^64',
+  'sequence numbers above 11 in sequencer_node, more than 7 buffered items in queue/buffer/priority nodes, thresholds above 3',
+  'node priorities (prioritize_task is cut to the no-priority identity), try_put_and_wait / message_metainfo, graph reset, cancellation, exceptions in bodies',
+  'function_node / multifunction_node / async_node / continue_node / source nodes (C14)',
+]
+STUBS = [
+  'r1::allocate / r1::deallocate (small_object_allocator): typed static task storage, never reused, counted',
+  'r1::submit: records the task in a bag; the harness runs it later (oldest first) and runs returned bypass tasks next',
+  'r1::execution_slot: the caller is an external thread (not in the graph arena); r1::notify_waiters: no-op',
+  'r1::cache_aligned_allocate/deallocate: malloc/free; operator new/delete: typed pools for std::list nodes and std::deque map/chunk',
+  'std::__detail::_List_node_base::_M_hook/_M_unhook: the documented list-node linking',
+  'd1::aggregator_generic<Op>::execute: explicit specialization in the wrappers = "no contention: run the handler on this one operation" (the protocol itself belongs to C13)',
+  'd2::prioritize_task: cut; identity for tasks without priority (asserted)',
+  'graph object: built white-box (my_is_active, wait-context vertex, node list) without task_arena / task_group_context',
+  'successors / predecessors of the node under test: harness receivers / senders that call observers (accept by concrete bit pattern; sources with a concrete number of items)',
+  'memset in translated code: word-wise stores (-Dmemset=vp_memset) so that cbmc keeps node members concrete',
+]
+ASSUMPTIONS = [
+  'single caller thread; every call into a node runs to completion before the next (spawned tasks run only when the harness runs them)',
+  'caller contract of item_buffer: release/consume only while reserved, pop_front only while not reserved, pop_back not on the reserved item',
+  'message values put into one buffering node are pairwise distinct while buffered (identifies messages; equal values are indistinguishable for the contracts)',
+  'limiter_node scenarios: a re-entrant decrement (successor answering inside try_put_task) is generated only while no predecessor is cached (otherwise the real code deadlocks, see OUTSIDE); deltas 0..3',
+  'sequencer body: sequence number of a message is supplied by the harness (concrete per scenario), independent of the symbolic message value',
+  'the sentinel SUCCESSFULLY_ENQUEUED = (graph_task*)-1 is modelled as the address of a dedicated object (ir2c --m1ptr): valid because the code only compares it for equality',
+]
